@@ -40,7 +40,7 @@ m = {
     "hooks": {
         "guard": "verif",
         "enable": "go test -c -tags verif (done by ./check; the harness module replaces github.com/theQRL/go-qrllib with /repo)",
-        "baseline_off_cmd": "cd /repo && GOFLAGS=-mod=mod GOPROXY=off GOSUMDB=off GOTOOLCHAIN=local go test -json -vet=off -count=1 -timeout 25m ./...",
+        "baseline_off_cmd": "cd /repo && GOPROXY=off GOSUMDB=off GOTOOLCHAIN=local go test -json -vet=off -count=1 -timeout 25m ./...",
         "source_commits": hook_commits,
         "add_only": True,
     },
